@@ -3,6 +3,7 @@
     types; N, Z, positive, nat stay inductive. *)
 Require Extraction.
 Require Import ExtrOcamlBasic.
-From GV Require Import Base.Bytes Base.GoStr Runtime.Rt.
+From GV Require Import Base.Bytes Base.GoStr Runtime.Rt Compiler.Tok Compiler.Lexer.
 Extraction "model.ml" lit html_escape html_unescape5 decode_rune encode_rune rune_count
-  build_class_list build_attr_list object_id object_class goht_if itoa.
+  build_class_list build_attr_list object_id object_class goht_if itoa
+  go_quote go_quote_rune toktype_name token_string new_lexer next_token lex_fuel.
